@@ -5,6 +5,14 @@ from genlib import *
 def suite_c02(r, n):
     nprogs = max(1, min(12, n // 40))
     progs = [gen_prog(r, i) for i in range(nprogs)]
+    for p in progs:
+        if r.chance(40): p.genopts = "slim"      # the slim generator option emits calls to lib/go/encoder.go helpers
+        Stat("genopts:" + (p.genopts or "default"))
+    # regression (KNOWN_FINDINGS: fixed C02 slim+i8): program 0 is always slim and has i8 fields
+    p0 = progs[0]
+    p0.genopts = "slim"
+    p0.structs[(p0.files[-1], "StRegI8")] = ("s", [(1, "r", "fregA1", Ty("y", alias="i8")), (2, "o", "fregB2", Ty("y", alias="i8")), (4, "d", "fregC4", Ty("L", Ty("y", alias="i8")))])
+    p0.order[p0.files[-1]].append(("r", "StRegI8"))
     jobs, meta = [], []
     per = max(1, n // nprogs)
     for p in progs:
